@@ -235,8 +235,10 @@ def zernike(n, m, D=1, grid=None, radial_cutoff=True, cache=None):
         R, Theta = grid.separated_coords
         z_r = zernike_radial(n, m, 2 * R / D, cache)
         if radial_cutoff:
-            z_r *= (2 * R) < D
-        z = sqrt(n + 1) * np.outer(zernike_azimuthal(m, Theta, cache), z_r).flatten()
+            # Do not modify z_r in place: it may be the array stored in the cache.
+            z_r = z_r * ((2 * R) < D)
+        z_theta = np.broadcast_to(zernike_azimuthal(m, Theta, cache), Theta.shape)
+        z = sqrt(n + 1) * np.outer(z_theta, z_r).flatten()
     else:
         r, theta = grid.as_('polar').coords
         z = sqrt(n + 1) * zernike_azimuthal(m, theta, cache) * zernike_radial(n, m, 2 * r / D, cache)
